@@ -55,9 +55,9 @@ theorem step_sound (hs : SimpSound s) (hI : I.Std) (hR : R I env code p st f) (h
           WRel I w0 w' f.this st'.storage st'.transient) ∧
     (∀ e ∈ (step s o cfg env code st).ends, e.tag = .normal → ∀ h, e.out = .halt h →
         Evm.step p w f = .halt w (haltWith h (e.data.map (·.eval I))) ∧
-        e.st.storage = st.storage ∧ e.st.transient = st.transient) := by
+        e.st.storage = st.storage ∧ e.st.transient = st.transient ∧ (∀ b ∈ e.data, b.WF ∧ b.width = 8)) := by
   rcases step_corr (w := w) (o := o) (cfg := cfg) hs hI hR hsat hl hmem hcode hW with
-    ⟨st1, w1, f1, e, _, _, hreach, hR1, hws⟩ | ⟨st0, h0, data, e, hp, hs0, ht0, hstep⟩ | ⟨e0, e, hp, hnc⟩ |
+    ⟨st1, w1, f1, e, _, _, hreach, hR1, hws⟩ | ⟨st0, h0, data, e, hp, hs0, ht0, hdwf, hstep⟩ | ⟨e0, e, hp, hnc⟩ |
     ⟨st0, target, c, e, hc, hp, _, hs0, ht0, htrue, hbad, hfalse⟩
   · rw [e]
     refine ⟨?_, ?_⟩
@@ -72,7 +72,7 @@ theorem step_sound (hs : SimpSound s) (hI : I.Std) (hR : R I env code p st f) (h
       simp only [haltOut, List.mem_singleton] at hm
       subst hm
       simp only [Out.halt.injEq] at he
-      subst he; exact ⟨hstep, hs0, ht0⟩
+      subst he; exact ⟨hstep, hs0, ht0, hdwf⟩
   · rw [e]
     refine ⟨?_, ?_⟩
     · intro st' hm; simp at hm
@@ -112,7 +112,7 @@ theorem step_sound (hs : SimpSound s) (hI : I.Std) (hR : R I env code p st f) (h
 def EndCovers (I : Interp) (w0 : Evm.World) (this : Nat) (r : Evm.World × Evm.Halt) (e : EndState) : Prop :=
   Sat I e.st.path ∧
     ((∃ h0, e.out = .halt h0 ∧ haltWith h0 (e.data.map (·.eval I)) = r.2 ∧ e.tag = .normal ∧
-        WRel I w0 r.1 this e.st.storage e.st.transient) ∨
+        WRel I w0 r.1 this e.st.storage e.st.transient ∧ (∀ b ∈ e.data, b.WF ∧ b.width = 8)) ∨
      (∃ r', e.out = .stuck r') ∨ e.tag ≠ .normal)
 
 /-- **step_complete.** -/
@@ -121,21 +121,22 @@ theorem step_complete (hs : SimpSound s) (ho : OracleSound o) (hI : I.Std) (hR :
     {w0 : Evm.World} (hW : WRel I w0 w f.this st.storage st.transient)
     (hsat : Sat I st.path) {r : Evm.World × Evm.Halt} (hh : Halts p w f r) :
     (∃ st' ∈ (step s o cfg env code st).next, Sat I st'.path ∧
-        ∃ w' f', R I env code p st' f' ∧ WRel I w0 w' f.this st'.storage st'.transient ∧ Halts p w' f' r) ∨
+        ∃ w' f', CReach p (w, f) (w', f') ∧ R I env code p st' f' ∧ WRel I w0 w' f.this st'.storage st'.transient ∧
+          Halts p w' f' r) ∨
     (∃ e ∈ (step s o cfg env code st).ends, EndCovers I w0 f.this r e) ∨
     (step s o cfg env code st).bounded ≠ [] := by
   rcases step_corr (w := w) (o := o) (cfg := cfg) hs hI hR hsat hl hmem hcode hW with
-    ⟨st1, w1, f1, e, hsat1, _, hreach, hR1, hws⟩ | ⟨st0, h0, data, e, hp, hs0, ht0, hstep⟩ | ⟨e0, e, hp, hnc⟩ |
+    ⟨st1, w1, f1, e, hsat1, _, hreach, hR1, hws⟩ | ⟨st0, h0, data, e, hp, hs0, ht0, hdwf, hstep⟩ | ⟨e0, e, hp, hnc⟩ |
     ⟨st0, target, c, e, hc, hp, _, hs0, ht0, htrue, hbad, hfalse⟩
   · left
     rw [e]
-    exact ⟨st1, by simp [contOut], hsat1, w1, f1, hR1, hws w0 hW, (halts_reach hreach).1 hh⟩
+    exact ⟨st1, by simp [contOut], hsat1, w1, f1, hreach, hR1, hws w0 hW, (halts_reach hreach).1 hh⟩
   · right; left
     have := (halts_halt hstep).1 hh
     subst this
     rw [e]
     exact ⟨⟨st0, .halt h0, .normal, data⟩, by simp [haltOut], by show Sat I st0.path; rw [hp]; exact hsat,
-      Or.inl ⟨h0, rfl, rfl, rfl, by show WRel I w0 w f.this st0.storage st0.transient; rw [hs0, ht0]; exact hW⟩⟩
+      Or.inl ⟨h0, rfl, rfl, rfl, by show WRel I w0 w f.this st0.storage st0.transient; rw [hs0, ht0]; exact hW, hdwf⟩⟩
   · right; left
     rw [e]
     refine ⟨e0, by simp, by rw [hp]; exact hsat, ?_⟩
@@ -162,7 +163,7 @@ theorem step_complete (hs : SimpSound s) (ho : OracleSound o) (hI : I.Std) (hR :
         ⟨st', hm, vis', rfl⟩ | hb | ⟨e', hm, hte⟩
       · left
         obtain ⟨f1, hr1, hR1⟩ := hfalse hcv
-        refine ⟨_, hm, ?_, w, f1, R_addCond hs hwfF hR1 rfl rfl rfl rfl rfl, wrel_addCond hW0 rfl rfl,
+        refine ⟨_, hm, ?_, w, f1, hr1, R_addCond hs hwfF hR1 rfl rfl rfl rfl rfl, wrel_addCond hW0 rfl rfl,
           (halts_reach hr1).1 hh⟩
         exact (addCond_sat hs hwfF).2 ⟨hsat0, by rw [condFalse_eval hs hc, hcv]; rfl⟩
       · right; right; rw [hb]; simp
@@ -180,9 +181,9 @@ theorem step_complete (hs : SimpSound s) (ho : OracleSound o) (hI : I.Std) (hR :
         have hsat' : Sat I (addCond s { st0 with pc := pc', visits := vis' } (s.b c)).path :=
           (addCond_sat hs hwfT).2 ⟨hsat0, by rw [condTrue_eval hs hc, hcv]⟩
         rcases hpc with rfl | rfl
-        · exact ⟨_, hm, hsat', w, f1, R_addCond hs hwfT hR1 rfl rfl rfl rfl rfl, wrel_addCond hW0 rfl rfl,
+        · exact ⟨_, hm, hsat', w, f1, hr1, R_addCond hs hwfT hR1 rfl rfl rfl rfl rfl, wrel_addCond hW0 rfl rfl,
             (halts_reach hr1).1 hh⟩
-        · exact ⟨_, hm, hsat', w, f2, R_addCond hs hwfT hR2 rfl rfl rfl rfl rfl, wrel_addCond hW0 rfl rfl,
+        · exact ⟨_, hm, hsat', w, f2, hr2, R_addCond hs hwfT hR2 rfl rfl rfl rfl rfl, wrel_addCond hW0 rfl rfl,
             (halts_reach hr2).1 hh⟩
       · right; right; rw [hb]; simp
       · right; left; exact ⟨e', hm, htag e' hm hte⟩
@@ -197,7 +198,7 @@ theorem stepL_sound (hs : SimpSound s) (hI : I.Std) (hR : R I env code p st f) (
           WRel I w0 w' f.this st'.storage st'.transient) ∧
     (∀ e ∈ (stepL s o cfg env code st).ends, e.tag = .normal → ∀ h, e.out = .halt h →
         Evm.step p w f = .halt w (haltWith h (e.data.map (·.eval I))) ∧
-        e.st.storage = st.storage ∧ e.st.transient = st.transient) := by
+        e.st.storage = st.storage ∧ e.st.transient = st.transient ∧ (∀ b ∈ e.data, b.WF ∧ b.width = 8)) := by
   unfold stepL
   split
   · refine ⟨fun st' hm => by simp [haltOut] at hm, fun e hm hn => ?_⟩
@@ -211,7 +212,8 @@ theorem stepL_complete (hs : SimpSound s) (ho : OracleSound o) (hI : I.Std) (hR 
     {w0 : Evm.World} (hW : WRel I w0 w f.this st.storage st.transient)
     (hsat : Sat I st.path) {r : Evm.World × Evm.Halt} (hh : Halts p w f r) :
     (∃ st' ∈ (stepL s o cfg env code st).next, Sat I st'.path ∧
-        ∃ w' f', R I env code p st' f' ∧ WRel I w0 w' f.this st'.storage st'.transient ∧ Halts p w' f' r) ∨
+        ∃ w' f', CReach p (w, f) (w', f') ∧ R I env code p st' f' ∧ WRel I w0 w' f.this st'.storage st'.transient ∧
+          Halts p w' f' r) ∨
     (∃ e ∈ (stepL s o cfg env code st).ends, EndCovers I w0 f.this r e) ∨
     (stepL s o cfg env code st).bounded ≠ [] := by
   unfold stepL
